@@ -28,7 +28,8 @@ def requirements(tier):
                              "fixed_just_enough": 40, "fixed_one_short_raised": 40, "deletion_free_models": 80, "deleting_models": 30,
                              "capacity_exceeded_raised": 10, "live_fixed_enough": 30, "live_fixed_short_raised": 30, "live_sizing_edits": 300},
             "required_classes": ["srv_autoscaling", "srv_on-premise", "srv_serverless", "windows_disjoint", "windows_overlapping",
-                                 "windows_equal", "zero_tail", "short_storage_duration", "deleter"]}
+                                 "windows_equal", "zero_tail", "short_storage_duration", "deleter", "live_type_serverless_to_autoscaling",
+                                 "live_type_serverless_to_on-premise", "live_type_autoscaling_to_on-premise"]}
 
 
 def c04_spec(rnd):
@@ -320,12 +321,19 @@ def run_case(case):
                 if o_["cls"] == "Storage":
                     kinds += [(n_, a) for a in ("base_storage_need", "base_storage_need", "storage_capacity", "data_replication_factor", "data_storage_duration")]
                 elif o_["cls"] == "Server":
-                    kinds += [(n_, a) for a in ("ram", "compute", "server_utilization_rate")]
+                    kinds += [(n_, a) for a in ("ram", "compute", "server_utilization_rate", "server_type", "server_type")]
             if not kinds:
                 break
             n_, a_ = rnd.choice(kinds)
             old_ = spec4["objects"][n_]["params"][a_]
-            if a_ == "base_storage_need":
+            if a_ == "server_type":
+                # the sizing rule follows the declared type, also when the type changes on a computed model
+                new_ = ["s", rnd.choice([t for t in ("autoscaling", "on-premise", "serverless") if t != old_[1]])]
+                fx_ = getattr(objs[n_], "fixed_nb_of_instances", None)
+                if new_[1] != "on-premise" and fx_ is not None and not isinstance(fx_, E.EmptyExplainableObject):
+                    continue
+                classes.add(f"live_type_{old_[1]}_to_{new_[1]}")
+            elif a_ == "base_storage_need":
                 new_ = ["q", rnd.choice([1.5, 6.0, 8.0, old_[1] + 3.0]), "TB"]
             elif a_ == "data_storage_duration":
                 new_ = ["q", rnd.choice([2, 5, 40]), "hour"]
